@@ -38,6 +38,7 @@ func init() {
 }
 
 func runC02(r *Run) {
+	r.NoSharedBigIntInLoop([]string{"consensus", "vm/", "chain/", "common/types."}, "decoded or computed per-element numbers (weights, amounts) must be separate objects")
 	// (1) determinism of everything that decides validity or state
 	ccr := r.Region("CCR", regionEntries["CCR"], false)
 	r.Determinism("CCR", ccr, ccrTriage, "two nodes given the same momentums must compute the same state: nothing on the consensus path may depend on the clock, on randomness, on scheduling or on map iteration order")
